@@ -84,7 +84,7 @@ func init() {
 		ID:        "C01",
 		Level:     "model_checking",
 		Technique: "bounded exhaustive enumeration of programs/operands/entry points executed on the real interpreter, compared per execution with the upstream go-ethereum v1.12.0 interpreter as reference model",
-		Rule: "cases = instruction matrix (every standard opcode x operand tuples with <=k non-default operands from boundary alphabets x pre-state shapes) + all macro sequences of length <=L + every byte string of length <=2 (3 over class representatives in thorough) as code + short sequences through all six entry points + each extra EIP singly on the fork before its activation, on the 12 forks Frontier..Shanghai; each compared in 4 /repo configurations (debug tracer on/off x join points on-with-nothing-bound/off). evaluations = reference/implementation pairs; states = distinct reference observations; non-trivial = distinct programs whose reference run consumed gas",
+		Rule: "cases = instruction matrix (every standard opcode x operand tuples with <=k non-default operands from boundary alphabets x pre-state shapes) + all macro sequences of length <=L + every byte string of length <=2 (3 over class representatives in thorough) as code + short sequences through all six entry points + scenario call trees (mutually calling contract sets: six call kinds x values x targets child/precompile/code-less/self x 7 terminators with SSTORE/LOG effects, Byzantium..Shanghai) + each extra EIP singly on the fork before its activation, on the 12 forks Frontier..Shanghai; each compared in 4 /repo configurations (debug tracer on/off x join points on-with-nothing-bound/off). evaluations = reference/implementation pairs; states = distinct reference observations; non-trivial = distinct programs whose reference run consumed gas",
 		Assumptions: []string{
 			"reference model is go-ethereum v1.12.0 core/vm from the module cache, driven on an identically built state.StateDB",
 			"operand values outside the boundary alphabets and programs longer than the bound are not covered",
@@ -92,7 +92,7 @@ func init() {
 		},
 		Bounds: func(t string) map[string]any {
 			o := stdOptsFor(t)
-			return map[string]any{"im_operand_deviation_bound": o.IMBound, "seq_len": o.SeqL, "bytes2": o.Bytes2, "bytes3_reps": o.Bytes3, "entry_seq_len": o.EntrySeqL, "forks": 12, "configs": 4}
+			return map[string]any{"im_operand_deviation_bound": o.IMBound, "seq_len": o.SeqL, "bytes2": o.Bytes2, "bytes3_reps": o.Bytes3, "entry_seq_len": o.EntrySeqL, "forks": 12, "configs": 4, "scenario_depth": map[bool]int{false: 2, true: 3}[o.ScnDeep]}
 		},
 		Quick:    100 * time.Second,
 		Thorough: 40 * time.Minute,
@@ -100,6 +100,10 @@ func init() {
 			o := stdOptsFor(w.Tier)
 			sess := stdSession()
 			forEachStdCase(w, o, func(cs *world.Case, family string) {
+				sess := sess
+				if family == "SCN" || family == "SSTORESEQ" {
+					sess = world.NewSession(cs.Accounts)
+				}
 				vs, r := c01Run(sess, cs)
 				w.Evals += int64(len(aConfigs))
 				w.Transitions += int64(len(aConfigs))
